@@ -205,8 +205,6 @@ def run(ctx):
         # the decision `not linked yet` is about this (remote, lane) pair, and `linked` goes out before the snapshot (shared with C04.R8)
         sp, pws = uplinks.implicit_link_rule(r, ctx, rt, he)
         ins = [c for c in he.calls if c.is_method("links::Links", "insert")]
-        fr = [c for c in he.calls if c.via_name == "from" and "Writes" in c.defpath and he.dominates(sp[0].block, c.block)]
-        r.check(bool(fr) and describe_operand(he, fr[0].args[0]).startswith("tuple(push_special("), "handle_event/pair-order", where(he), "the pair is (linked, data)")
         g = dom_guards(he, ins[0].block)
         r.check(any(l == "Some" and "target" in d for d, l, _ in g), "handle_event/only-for-targeted", ins[0].loc(), "implicit linking only for targeted responses")
 
